@@ -118,16 +118,21 @@ theorem C05_no_error_value_special_casing :
   decide
 
 /-- `DB.Commit` / `DB.Rollback` hand the pool's result to AddError directly (`db.AddError(committer.Commit())`),
-    under conditions about the pool only; `DB.Begin` hands over every non-nil BeginTx error -/
+    under conditions about the pool only; `DB.Begin` hands over every non-nil BeginTx error.  The only latitude: the
+    `ErrInvalidTransaction` of gorm's own (no pool result) raised when the statement's pool is no TxCommitter may be
+    limited to handles that are not in DryRun mode (`else if !db.DryRun`, repair of F25-C19) -/
 theorem C05_tx_errors_to_addError :
+    ∃ inv : List String, (inv = [] ∨ inv = ["!db.DryRun"]) ∧
     txFuncs.map (fun h => (h.name, (h.calls.filter (fun c => c.kind = "adderror")).map
         (fun c => (c.what, c.guards.filter (· ≠ "tx.Error == nil"))))) =
       [ ("DB.Begin", [("err", ["err != nil"])]),
         ("DB.Commit", [("committer.Commit()", ["ok", "committer != nil", "!reflect.ValueOf(committer).IsNil()"]),
-                       ("ErrInvalidTransaction", [])]),
+                       ("ErrInvalidTransaction", inv)]),
         ("DB.Rollback", [("committer.Rollback()", ["ok", "committer != nil", "!reflect.ValueOf(committer).IsNil()"]),
-                         ("ErrInvalidTransaction", [])]) ] := by
-  decide
+                         ("ErrInvalidTransaction", inv)]) ] := by
+  first
+    | exact ⟨[], Or.inl rfl, by decide⟩
+    | exact ⟨["!db.DryRun"], Or.inr rfl, by decide⟩
 
 set_option maxRecDepth 8192 in
 /-- the sources `TxF.beginTransaction` / `TxF.commitOrRollback` transcribe (regenerated text compared literally):
